@@ -283,3 +283,37 @@ Definition read_body (neg : bool) (body : str) : option (bool * Z * nat) :=
 
 Definition read_decimal (s : str) : option (bool * Z * nat) :=
   let '(neg, body) := strip_minus s in read_body neg body.
+
+(* ---------- URLs that never leave the client ---------- *)
+
+Definition is_ctl (a : ascii) : bool := let c := code a in (c <? 32) || (c =? 127).
+
+(* a '%' that is not followed by two hex digits *)
+Fixpoint bad_percent (s : str) : bool :=
+  match s with
+  | [] => false
+  | a :: r =>
+      if Ascii.eqb a "%" then
+        match r with
+        | h :: l :: _ => match unhex h, unhex l with Some _, Some _ => bad_percent r | _, _ => true end
+        | _ => true
+        end
+      else bad_percent r
+  end.
+
+Definition http_rest (u : str) : option str :=
+  match strip_prefix (lit "http://") u with
+  | Some r => Some r
+  | None => strip_prefix (lit "https://") u
+  end.
+
+(* hand model of what net/url + net/http refuse before anything is sent (http.NewRequest fails,
+   or the transport has no scheme to use): no http(s) scheme, a control character, a '%' that
+   is not an escape, a space in the host part *)
+Definition url_refused (u : str) : bool :=
+  match http_rest u with
+  | None => true
+  | Some r =>
+      existsb is_ctl u || bad_percent u ||
+      existsb (fun a => Ascii.eqb a " ") (match cut_at "/" r with Some (h, _) => h | None => r end)
+  end.
